@@ -2,6 +2,8 @@ package main
 
 import (
 	"fmt"
+	"os"
+	"path/filepath"
 	"strings"
 )
 
@@ -45,14 +47,16 @@ func checkC11(r *Run) {
 			}
 		}
 	}
+	xreqs, xdocs := c11CrossPackage(r, c)
+	reqs = append(reqs, xreqs...)
 	pyResps, err := c.runPy(reqs)
 	if err != nil {
 		r.Inconclusive("python driver run: " + err.Error())
 	}
 	var goReqs []drvReq
 	for _, q := range reqs {
-		m := metas[q.ID]
-		if goErr == nil && m.cs.GoOK && m.cs.GoTypes[m.obj.Name] {
+		m, isAM := metas[q.ID]
+		if isAM && goErr == nil && m.cs.GoOK && m.cs.GoTypes[m.obj.Name] {
 			goReqs = append(goReqs, q)
 		}
 	}
@@ -62,6 +66,10 @@ func checkC11(r *Run) {
 	}
 	importFailed := map[string]bool{}
 	for _, q := range reqs {
+		if doc, isX := xdocs[q.ID]; isX {
+			c11JudgeCross(r, q, doc, pyResps)
+			continue
+		}
 		m := metas[q.ID]
 		resp, ok := pyResps[q.ID]
 		if !ok {
@@ -141,4 +149,100 @@ func pyErrClass(s *amSchema, root *amType, doc any, msg string) string {
 		return "explicit-null-for-nullable-composite(" + exc + ")"
 	}
 	return exc + "/" + detail
+}
+
+// ---- cross-package workload -----------------------------------------------------------------
+// Two CUE packages; `panel` imports `common`; both define a struct and an enum of the same name, and
+// panel.#Panel uses both. Documents are written by hand (valid by construction).
+
+const c11CommonCUE = `package common
+
+#Options: {
+	b:     int64
+	note?: string
+}
+
+#Unit: "ms" | "s"
+`
+
+const c11PanelCUE = `package panel
+
+import "example.com/lib/common"
+
+#Options: {
+	a: string
+}
+
+#Unit: "px" | "em"
+
+#Panel: {
+	opts:    #Options
+	shared:  common.#Options
+	unit?:   #Unit
+	cunit?:  common.#Unit
+	more?: [...common.#Options]
+	mine?: [...#Options]
+	byKey?: {[string]: common.#Options}
+}
+`
+
+func c11CrossPackage(r *Run, c *corpus) ([]drvReq, map[string]string) {
+	sid := "x0001"
+	in := filepath.Join(c.dir, "in", sid)
+	_ = os.MkdirAll(filepath.Join(in, "common"), 0o755)
+	_ = os.MkdirAll(filepath.Join(in, "panel"), 0o755)
+	_ = os.WriteFile(filepath.Join(in, "common", "common.cue"), []byte(c11CommonCUE), 0o644)
+	_ = os.WriteFile(filepath.Join(in, "panel", "panel.cue"), []byte(c11PanelCUE), 0o644)
+	outRoot := filepath.Join(c.dir, "out", sid)
+	yaml := fmt.Sprintf("inputs:\n  - cue:\n      entrypoint: %s\n      package: common\n  - cue:\n      entrypoint: %s\n      package: panel\n      cue_imports: ['%s:example.com/lib/common']\noutput:\n  directory: %s\n  types: true\n  builders: false\n  languages:\n    - python: {generate_json_marshaller: true}\n",
+		yq(filepath.Join(in, "common")), yq(filepath.Join(in, "panel")), filepath.Join(in, "common"), yq(filepath.Join(outRoot, "%l")))
+	res := runPipelineYAML(in, "pipeline.yaml", yaml, outRoot)
+	if res.Err != nil || res.Panic != nil {
+		r.CaseInconclusive(fmt.Sprintf("cross-package workload: pipeline failed: %v %v", res.Err, res.Panic))
+		return nil, nil
+	}
+	if err := res.Files.under("python").writeTo(filepath.Join(c.dir, "pyroot", sid)); err != nil {
+		r.CaseInconclusive("cross-package workload: " + err.Error())
+		return nil, nil
+	}
+	docs := []string{
+		`{"opts":{"a":"x"},"shared":{"b":3,"note":"n"}}`,
+		`{"opts":{"a":""},"shared":{"b":0},"unit":"em","cunit":"s"}`,
+		`{"opts":{"a":"y"},"shared":{"b":7},"more":[{"b":1},{"b":2,"note":"z"}],"mine":[{"a":"p"},{"a":"q"}]}`,
+		`{"opts":{"a":"y"},"shared":{"b":-1,"note":""},"byKey":{"k1":{"b":5},"k2":{"b":6,"note":"w"}},"unit":"px","cunit":"ms"}`,
+	}
+	var reqs []drvReq
+	xdocs := map[string]string{}
+	for i, d := range docs {
+		id := fmt.Sprintf("%s/panel.Panel#%d", sid, i)
+		reqs = append(reqs, drvReq{ID: id, Op: "roundtrip", Type: sid + "/panel.Panel", Doc: []byte(d)})
+		xdocs[id] = d
+	}
+	r.Count("cross_package_documents", len(docs))
+	return reqs, xdocs
+}
+
+func c11JudgeCross(r *Run, q drvReq, doc string, resps map[string]drvResp) {
+	resp, ok := resps[q.ID]
+	if !ok {
+		r.CaseInconclusive("no python response for " + q.ID)
+		return
+	}
+	r.Eval()
+	r.Distinct(q.ID)
+	r.Count("events.python_roundtrip_cross_package", 1)
+	replay := map[string]any{"workload": "cross-package", "common.cue": c11CommonCUE, "panel.cue": c11PanelCUE, "document": doc}
+	if resp.Panic != "" {
+		r.Violation("python-exception/cross-package/"+maskMsg(truncate(resp.Panic, 80)), fmt.Sprintf("%s on document %s (packages common + panel)", resp.Panic, doc), replay)
+		return
+	}
+	orig, _ := parseJSONNum([]byte(doc))
+	got, err := parseJSONNum(resp.Out)
+	if err != nil {
+		r.Violation("python-output-not-json", string(resp.Out), replay)
+		return
+	}
+	if d := jsonDiff(orig, got, jsonCmpOpts{NullEqualsAbsent: true}, ""); d != "" {
+		r.Violation("python-roundtrip-diff/cross-package/"+maskMsg(strings.SplitN(d, ":", 2)[0]), fmt.Sprintf("document %s comes back from Python as %s — differs at %s", doc, resp.Out, d), replay)
+	}
 }
